@@ -77,6 +77,34 @@ class DecoderView:
                 out.append((n, unparse(n.func.value), self.fold_str(n.args[0])))
         return out
 
+    def resync_scans(self):
+        """Re-synchronisation scans inside a bad frame: ranged searches (over the buffer or the text cut from it) for the frame-start
+        marker itself, with a lower bound other than 0, whose result does not bound any slice (it only says how much of a bad frame
+        is dropped; it never cuts the frame that is parsed)."""
+        start, _r, marker = self.start_search()
+        mtxt = marker.decode("latin-1") if isinstance(marker, bytes) else marker
+        if not mtxt:
+            return []
+        cut_names = set()
+        for n in walk_no_nested(self.fn):
+            if isinstance(n, ast.Slice):
+                for b in (n.lower, n.upper):
+                    if b is not None:
+                        for x in ast.walk(b):
+                            if isinstance(x, ast.Name):
+                                cut_names |= set(derivation(self.fn, x.id).keys())
+        out = []
+        for c, r, lit in self.searches():
+            lt = lit.decode("latin-1") if isinstance(lit, bytes) else lit
+            if c is start or len(c.args) < 2 or lt != mtxt or (isinstance(c.args[1], ast.Constant) and c.args[1].value == 0):
+                continue
+            par = getattr(c, "_parent", None)
+            tgt = par.targets[0].id if isinstance(par, ast.Assign) and len(par.targets) == 1 and isinstance(par.targets[0], ast.Name) else None
+            if tgt is None or tgt in cut_names:
+                continue
+            out.append(c)
+        return out
+
     def start_search(self):
         """The frame-start search: the one search over the whole buffer (no range arguments).
         Ranged searches on the buffer are re-synchronisation scans inside a bad frame."""
@@ -183,7 +211,8 @@ def extent_findings(dv: DecoderView):
     the buffer end when a trailer is present.  Returns (instances, findings) where findings are
     (construct, what, where-node)."""
     inst, bad = 0, []
-    text_searches = [(c, r, lit) for c, r, lit in dv.searches() if r != dv.buf]
+    rs_ = dv.resync_scans()
+    text_searches = [(c, r, lit) for c, r, lit in dv.searches() if r != dv.buf and c not in rs_]
     sc_, _sr, marker = dv.start_search()
     runtime_marker = None
     if not isinstance(marker, (bytes, str)) or not marker:
